@@ -5,6 +5,8 @@ package main
 // case carries: typed nil pointers, nil and empty containers, nil elements, foreign types,
 // garbage paths, every operator.  Observation: ok (the call returned) or PANIC:<kind>; a call
 // that kills the process (stack overflow) is reported by lib/isolate.py as ABORT:<why>.
+// reflect Get / GetTo additionally run targeted paths (GenC02builtin.v reflect_targets) over maps whose keys only
+// their `%v` text names and over defined pointer / map types (types of c02defined.go and below).
 //
 //   <inspector>|<method>|<argument name>|<method parameters ...>
 //   assign|<buffered 0|1>|<destination name>|<source name>
@@ -26,6 +28,19 @@ type c02Inner struct{ X int }
 type c02Outer struct{ *c02Inner }
 type c02Cyc *c02Cyc
 type c02Hidden struct{ x int }
+
+// keys a path segment cannot name by a conversion: only their `%v` text; defined types with methods
+type c02Str string
+type c02Boom int
+type c02LeafPtr *C02Leaf
+type c02Rec map[C02Lang]c02Rec
+type c02Emb struct {
+	C02ByLang
+	*C02Doc
+}
+
+func (c02Str) String() string  { return "S" }
+func (c02Boom) String() string { panic("boom") }
 
 func c02Arg(name string) (any, bool) {
 	i, s, f, b := 7, "ab", 1.5, true
@@ -147,6 +162,41 @@ func c02Arg(name string) (any, bool) {
 		return map[any]any{1: 2, "a": nil, 1.5: []int{1}, c02Foreign{2}: 3}, true
 	case "r:anyslice":
 		return []any{nil, 1, (*int)(nil), []any{nil}}, true
+	case "r:kstruct":
+		return map[c02Foreign]C02Lang{{1}: "x", {2}: "y"}, true
+	case "r:karray":
+		return map[[2]C02Code]string{{1, 2}: "x"}, true
+	case "r:kiface":
+		return map[any]any{C02Lang("a"): 1, "a": 2, C02Code(1): 3, 1: 4, nil: 5, c02Str("q"): 6}, true
+	case "r:kptr":
+		l := C02Lang("a")
+		return map[*C02Lang]int{&l: 1, nil: 2}, true
+	case "r:kstringer":
+		return map[c02Str]int{"a": 1, "b": 2}, true
+	case "r:kboom":
+		return map[c02Boom]C02Names{1: {"x"}}, true
+	case "r:kchan":
+		return map[chan int]int{make(chan int): 1, nil: 2}, true
+	case "r:kcomplex":
+		return map[complex128]C02Lang{complex(1, 2): "x"}, true
+	case "r:defptr":
+		return map[string]c02LeafPtr{"a": &C02Leaf{Id: "i"}, "n": nil}, true
+	case "r:defrec":
+		return c02Rec{"a": {"b": nil, "c": {}}}, true
+	case "r:pdefrec":
+		r := c02Rec{"a": {"b": nil, "c": {}}}
+		pr := &r
+		return &pr, true
+	case "r:defany":
+		return map[C02Lang]any{"m": map[C02Code]any{1: C02Names{"x"}}, "s": C02Langs{"q"}, "n": nil, "p": (*C02ByLang)(nil),
+			"d": &C02Doc{Titles: map[C02Lang]string{"en": "t"}}}, true
+	case "r:embdef":
+		return c02Emb{C02ByLang: C02ByLang{"a": {Id: "i"}}}, true
+	case "r:nildefmap":
+		return C02ByLang(nil), true
+	case "r:pnildefmap":
+		var m map[C02Lang]C02Lang
+		return &m, true
 	case "r:nested":
 		return map[string][]map[int]*c02Foreign{"a": {nil, {1: nil, 2: {X: 3}}}}, true
 	}
